@@ -4,5 +4,6 @@ func init() {
 	reg("C01", "Decided on the decode closure (module functions reachable from the listeners' and transports' entry points): (R01a) every index, slice and library precondition is in bounds for all inputs …",
 		Rule{ID: "R01a", Doc: "bounds of every index/slice in the decode closure", Floor: 50, Run: r01a},
 		Rule{ID: "R01b", Doc: "no other panic source in the decode closure", Floor: 30, Run: r01b},
+		Rule{ID: "R01d", Doc: "every loop in the decode closure has a verified termination argument", Floor: 40, Run: r01d},
 	)
 }
